@@ -463,6 +463,11 @@ func writeReplay(p *Program, id string, o *Obligation, dir string) (string, bool
 		}
 		break
 	}
+	if _, tried := rec["replay_test"]; !tried {
+		// no hand-written reproduction for this obligation: functions over
+		// scalars are replayed generically from the solver's model
+		reproduced = genericReplay(p, o, dir, rec)
+	}
 	if !reproduced {
 		rec["note"] = "no-failing-input-found: the obligation is not discharged on the current tree; it is discharged on the unchanged tree"
 	}
